@@ -3,6 +3,7 @@ package harness
 import (
 	"encoding/json"
 	"fmt"
+	"strings"
 	"sync/atomic"
 	"testing"
 
@@ -37,6 +38,48 @@ type C08Fill struct {
 type C08Op struct {
 	Call *Call    `json:"call,omitempty"`
 	Fill *C08Fill `json:"fill,omitempty"`
+	// Reg registers a global function (SetCustomerValidFn) in the middle of the
+	// history under a placeholder name (LATE1, LATE2) that rule texts of the
+	// history may use: before this step the name is unknown, afterwards it
+	// resolves to the function - also for types analysed (and cached) earlier.
+	// Every execution (and every cache configuration) replaces the placeholders
+	// by names never used before, because registrations cannot be undone.
+	Reg string `json:"reg,omitempty"`
+}
+
+var lateCounter int
+
+// instantiate returns a copy of the history in which the placeholder names are
+// replaced by fresh ones, and the placeholder -> name mapping.
+func (c *C08Case) instantiate() (*C08Case, map[string]string) {
+	b, _ := json.Marshal(c)
+	if !strings.Contains(string(b), "LATE") {
+		return c, nil
+	}
+	lateCounter++
+	names := map[string]string{"LATE1": fmt.Sprintf("late%dx", lateCounter), "LATE2": fmt.Sprintf("late%dy", lateCounter)}
+	txt := string(b)
+	for ph, n := range names {
+		txt = strings.ReplaceAll(txt, ph, n)
+	}
+	var out C08Case
+	if err := json.Unmarshal([]byte(txt), &out); err != nil {
+		panic(err)
+	}
+	return &out, names
+}
+
+// unname maps the fresh names in an outcome back to the placeholders (to compare runs).
+func unname(o outcome, names map[string]string) outcome {
+	for ph, n := range names {
+		o.Text = strings.ReplaceAll(o.Text, n, ph)
+	}
+	return o
+}
+
+type c08Step struct {
+	call *Call
+	reg  string
 }
 
 // C08Case is a history plus the cache configurations it runs under.
@@ -106,6 +149,7 @@ func backendFor(cfg string, evictions *int64) valid.CacheEr {
 }
 
 type c08Facts struct {
+	lateRegs int // global registrations performed in the middle of histories
 	otherTagEarlier bool // a call on a type validated earlier under a different tag name
 	reanalysed      bool // a (type, tag) seen before had to be analysed again (evicted meanwhile)
 	hits            int64
@@ -116,38 +160,53 @@ type c08Facts struct {
 func (f c08Facts) nontrivial() bool { return f.otherTagEarlier || f.reanalysed }
 
 // flatten expands fills into calls.
-func (c *C08Case) flatten() []*Call {
-	var out []*Call
+func (c *C08Case) flatten() []c08Step {
+	var out []c08Step
 	for _, op := range c.Ops {
 		if op.Call != nil {
-			out = append(out, op.Call)
+			out = append(out, c08Step{call: op.Call})
 		}
 		if op.Fill != nil {
 			for i := 0; i < op.Fill.N; i++ {
-				out = append(out, bankCall(op.Fill.From+i, op.Fill.Tag))
+				out = append(out, c08Step{call: bankCall(op.Fill.From+i, op.Fill.Tag)})
 			}
+		}
+		if op.Reg != "" {
+			out = append(out, c08Step{reg: op.Reg})
 		}
 	}
 	return out
 }
 
+// register performs a late global registration (and tells the model).
+func register(name string) {
+	valid.SetCustomerValidFn(name, customFn("global", name))
+	globalFnNames[name] = true
+}
+
 // checkC08 runs the history under every configuration.
 func checkC08(c *C08Case) (string, c08Facts) {
 	var facts c08Facts
-	calls := c.flatten()
-	facts.calls = len(calls)
+	facts.calls = len(c.flatten())
 	type pred struct {
 		unordered bool
 		first     outcome
 	}
-	preds := make([]pred, len(calls))
+	preds := make([]pred, facts.calls)
 	for ci, cfg := range c.Configs {
 		var evictions int64
 		backend := backendFor(cfg, &evictions)
 		proxy.set(backend)
 		proxy.count = true
 		seen := map[string]map[string]bool{} // type -> tags validated so far under this backend
-		for i, call := range calls {
+		inst, names := c.instantiate()           // fresh names for late registrations, per configuration
+		for i, step := range inst.flatten() {
+			if step.reg != "" {
+				register(step.reg)
+				facts.lateRegs++
+				continue
+			}
+			call := step.call
 			tk, tag := call.typeKey(), "-"
 			if call.S != nil {
 				tag = call.S.tagName()
@@ -174,7 +233,7 @@ func checkC08(c *C08Case) (string, c08Facts) {
 			proxy.set(backend)
 			if ci == 0 {
 				res, unordered := call.predict()
-				preds[i] = pred{unordered: unordered, first: o1}
+				preds[i] = pred{unordered: unordered, first: unname(o1, names)}
 				// (2) independent prediction for the requested tag name
 				if m := call.againstModel(res, o2); m != "" {
 					proxy.count = false
@@ -186,7 +245,7 @@ func checkC08(c *C08Case) (string, c08Facts) {
 				return fmt.Sprintf("cache %s, call %d (type %s, tag %s): result %v differs from the result with an always-miss cache %v", cfg, i, shortType(tk), tag, o1, o2), facts
 			}
 			// (3) across configurations
-			if !sameOutcome(o1, preds[i].first, preds[i].unordered) {
+			if !sameOutcome(unname(o1, names), preds[i].first, preds[i].unordered) {
 				proxy.count = false
 				return fmt.Sprintf("call %d (type %s, tag %s): cache %s gives %v, cache %s gave %v", i, shortType(tk), tag, cfg, o1, c.Configs[0], preds[i].first), facts
 			}
@@ -254,19 +313,48 @@ func genC08Case(t *rapid.T) *C08Case {
 		if tag := rapid.SampledFrom(multiTags).Draw(t, "tag"); tag != "valid" {
 			s.Tag = tag
 		}
+		if rapid.IntRange(0, 9).Draw(t, "emptyTagName") == 0 {
+			s.Tag = emptyTag // an explicitly empty tag name: no tag rules, only the rule sets of the call
+		}
 		s.pickEntry(rapid.IntRange(0, 7).Draw(t, "entry"))
 		return &Call{S: s}
 	}
+	// late global registration: a rule name that is unknown at first and gets registered in
+	// the middle of the history; it sits in a TAG (so it is part of the cached analysis)
+	late := ""
+	if rapid.IntRange(0, 3).Draw(t, "lateReg") == 0 {
+		late = rapid.SampledFrom([]string{"LATE1", "LATE2"}).Draw(t, "lateName")
+		p := &pool[rapid.IntRange(0, len(pool)-1).Draw(t, "lateType")]
+		for i := range p.ty.Fields {
+			f := &p.ty.Fields[i]
+			if desc.Exported(f.Name) && f.T.Elem == nil && f.T.K != "struct" && f.T.K != "time" {
+				if f.Tags == nil {
+					f.Tags = map[string]string{}
+				}
+				tg := rapid.SampledFrom(multiTags).Draw(t, "lateTag")
+				if f.Tags[tg] == "" {
+					f.Tags[tg] = late
+				} else {
+					f.Tags[tg] += "," + late
+				}
+				break
+			}
+		}
+	}
 	nOps := rapid.IntRange(4, ev.Pick(40, 80)).Draw(t, "nOps")
+	regAt := rapid.IntRange(1, nOps-1).Draw(t, "regAt")
 	var made []*Call
 	for i := 0; i < nOps; i++ {
+		if late != "" && i == regAt {
+			c.Ops = append(c.Ops, C08Op{Reg: late})
+		}
 		switch k := rapid.IntRange(0, 19).Draw(t, "op"); {
 		case k <= 2 && len(made) > 0: // the same call again
 			c.Ops = append(c.Ops, C08Op{Call: made[rapid.IntRange(0, len(made)-1).Draw(t, "again")]})
 		case k <= 5 && len(made) > 0: // the same value and type under another tag name
 			src := made[rapid.IntRange(0, len(made)-1).Draw(t, "retag")]
 			cp := *src.S
-			cp.Tag = rapid.SampledFrom([]string{"", "alipay", "wechat"}).Draw(t, "newTag")
+			cp.Tag = rapid.SampledFrom([]string{"", "alipay", "wechat", emptyTag}).Draw(t, "newTag")
 			cp.pickEntry(rapid.IntRange(0, 7).Draw(t, "entry2"))
 			nc := &Call{S: &cp}
 			made = append(made, nc)
@@ -305,6 +393,9 @@ func TestC08(t *testing.T) {
 		if facts.calls > 512 {
 			ev.Class("history-exceeds-default-capacity")
 		}
+		if facts.lateRegs > 0 {
+			ev.Class("global-function-registered-in-mid-history")
+		}
 		b, _ := json.Marshal(c.Ops)
 		ev.Case(string(b), facts.nontrivial(), func() interface{} { return c08Sample(c) })
 		if msg != "" {
@@ -329,6 +420,10 @@ func c08Sample(c *C08Case) interface{} {
 		}
 		if op.Fill != nil {
 			steps = append(steps, step{Fill: op.Fill})
+			continue
+		}
+		if op.Reg != "" {
+			steps = append(steps, step{Type: "register global function " + op.Reg})
 			continue
 		}
 		steps = append(steps, step{Type: shortType(op.Call.typeKey()), Tag: op.Call.S.tagName(), RM: op.Call.S.Unscoped})
@@ -369,7 +464,15 @@ func checkC08Default(c *C08Case) (string, bool) {
 	first := map[string]outcome{}
 	nt := false
 	otherTag := map[string]string{}
-	for i, call := range c.flatten() {
+	inst, _ := c.instantiate()
+	for i, step := range inst.flatten() {
+		if step.reg != "" {
+			register(step.reg)
+			// identical calls before and after a registration may legitimately differ
+			first = map[string]outcome{}
+			continue
+		}
+		call := step.call
 		o := call.prepare().run()
 		res, unordered := call.predict()
 		if m := call.againstModel(res, o); m != "" {
